@@ -12,6 +12,7 @@ THEOREMS = [(M, "NQ.C08." + n) for n in [
     "branch_lands_on_expansion", "nongate_order", "scratch_ok", "transpile_simulates_partial",
     "transpile_simulates_final_partial", "pad_is_set", "set_writes_gen",
     "templates_eq_nvdecomp", "expandSound_of_C07", "transpile_simulates_C07_partial",
+    "mov_unknown_emits_ec", "f10_nonQ_register_asserts",
     "f10_counterexample_asserts", "f10_counterexample_stale", "f26_fixed_witness"]]
 TRANSLATORS = ["nv_expand", "nv_decomp"]
 LEVEL_TEXT = (
@@ -155,6 +156,9 @@ def run(ctx):
             js2 = H.replace_loads_by_sets(js, gen.load_sites)
             if H.oracle_compare([js2], nq, script, st, debug=debug) is None:
                 kf = "F10"
+        elif H.nonq_two_qubit_gate(js):
+            if H.oracle_compare([H.nonq_to_q(js)], nq, script, st, debug=debug) is None:
+                kf = "F10"
         res.failures.append({"what": r["what"], "kf": kf, "detail": {k: v for k, v in r.items() if k != "what"},
                              "input": {"program": [js], "text": H.show(js), "nq": nq, "script": script,
                                        "debug": debug, "state": [[z.real, z.imag] for z in st]}})
@@ -172,6 +176,18 @@ def run(ctx):
     class _G:  # load site bookkeeping for the two hand-written witnesses
         def __init__(self, sites):
             self.load_sites = sites
+    w_nonq = [H.ins("core.SetInstruction", H.reg(Rb, 0), H.imm(0)), H.ins("core.SetInstruction", H.reg(Rb, 1), H.imm(1)),
+              H.ins("vanilla.CnotInstruction", H.reg(Rb, 0), H.reg(Rb, 1))]
+    oracle("corpus-F10-nonQ", w_nonq, 2)
+    # mov with run-time register ids, both directions (the SDK emits the first): must agree
+    for a, b in ((0, 1), (1, 0), (0, 2)):
+        w_mov = [H.ins("core.SetInstruction", H.reg(Rb, 3), H.imm(b)), H.ins("core.InitInstruction", H.reg(Rb, 3)),
+                 H.ins("core.SetInstruction", H.reg(Rb, 4), H.imm(a)),
+                 H.ins("vanilla.MovInstruction", H.reg(Rb, 4), H.reg(Rb, 3)),
+                 H.ins("core.InitInstruction", H.reg(Rb, 4))]
+        oracle("corpus-mov-runtime-ids", w_mov, 3)
+        syntactic("corpus", w_mov, False, False)
+    syntactic("corpus", w_nonq, False, False)
     oracle("corpus-F10-assert", w_assert, 3, _G([(5, 0, 0)]))
     oracle("corpus-F10-stale", w_stale, 3, _G([(6, 0, 0)]))
     # F26 (fixed): branch across a carbon-carbon gate with debug markers
@@ -197,8 +213,10 @@ def run(ctx):
         for f in g.features:
             res.count("feature:" + f)
         dbg = rng.random() < 0.5
-        syntactic("struct-load" if loads else "struct", js, dbg, rng.random() < 0.3)
-        oracle("struct-load" if loads else "struct", js, nq, g, debug=dbg)
+        # programs with a run-time-id mov are outside QStatic by definition (own tag, oracle still runs)
+        tag = "struct-load" if loads else ("struct-movR" if "mov-runtime-ids" in g.features else "struct")
+        syntactic(tag, js, dbg, rng.random() < 0.3)
+        oracle(tag, js, nq, g, debug=dbg)
     flush_syntactic()
 
     # ---- instruction soup (malformed stream included): syntactic only
